@@ -121,6 +121,8 @@ def write_evidence(mod, tier, base_seed, cov, nviol, wall, assumptions):
           'level': getattr(mod, 'LEVEL', 'exploration'), 'coverage': cov,
           'assumptions': assumptions, 'wall_s': round(wall, 3), 'violations': nviol}
     path = os.path.join(env.VERIF, 'evidence', '%s.json' % mod.PROPERTY)
+    if os.path.realpath(env.REPO) != '/repo':   # scratch copy (self-test): never touch committed evidence
+        path = os.path.join(env.OUT, 'evidence-scratch-%s.json' % mod.PROPERTY)
     os.makedirs(os.path.dirname(path), exist_ok=True)
     ev = jsonable(ev)
     try:
